@@ -42,6 +42,19 @@
  */
 #define RAND_DIST		40
 
+/**
+ * Tests if an integer can hold the given number of digits, by the criterion
+ * bn_grow() uses to report missing precision.
+ *
+ * @param[in] A				- the multiple precision integer.
+ * @param[in] D				- the number of digits.
+ */
+#if ALLOC == AUTO
+#define BN_FITS(A, D)		((size_t)(D) <= RLC_BN_SIZE)
+#else
+#define BN_FITS(A, D)		((size_t)(D) <= (size_t)(A)->alloc)
+#endif
+
 /*============================================================================*/
 /* Public definitions                                                         */
 /*============================================================================*/
@@ -140,7 +153,7 @@ void bn_set_bit(bn_t a, uint_t bit, int value) {
 	RLC_RIP(bit, d, bit);
 
 	bn_grow(a, d + 1);
-	if (a->alloc < d + 1) {
+	if (!BN_FITS(a, d + 1)) {
 		/* Not enough precision, already reported by bn_grow(). */
 		return;
 	}
@@ -202,7 +215,7 @@ void bn_rand(bn_t a, int sign, size_t bits) {
 	digits += (bits > 0 ? 1 : 0);
 
 	bn_grow(a, digits);
-	if (a->alloc < digits) {
+	if (!BN_FITS(a, digits)) {
 		/* Not enough precision, already reported by bn_grow(). */
 		return;
 	}
@@ -441,7 +454,7 @@ void bn_read_bin(bn_t a, const uint8_t *bin, size_t len) {
 	int digs = (len % d == 0 ? len / d : len / d + 1);
 
 	bn_grow(a, digs);
-	if (a->alloc < digs) {
+	if (!BN_FITS(a, digs)) {
 		/* Not enough precision, already reported by bn_grow(). */
 		return;
 	}
